@@ -174,17 +174,21 @@ def cgLoop (n : Nat) (A : Nat → Nat → α) (M : Option (Nat → Nat → α)) 
 def anyNonzero (n : Nat) (x : Nat → α) : Bool :=
   (List.range n).any fun i => Scalar.lt (k 0) (x i) || Scalar.lt (x i) (k 0)
 
+/-- the iteration budget: `maxiter` if given, else `n * 10` -/
+def cgBudget (n : Nat) (maxiter : Option Nat) : Nat := match maxiter with | some m => m | none => n * 10
+
+/-- the state handed to the loop: `x = x0` (or zeros), `r = b - A @ x if x.any() else b.clone()` -/
+def cgInit (n : Nat) (A : Nat → Nat → α) (b : Nat → α) (x0 : Option (Nat → α)) : CGState α :=
+  let x : Tab α := match x0 with | some x => tab n x | none => tab n fun _ => k 0
+  let r : Tab α := if anyNonzero n x.get then tab n (fun i => b i - matVec n A x.get i) else tab n b
+  { x := x, r := r, p := tab n fun _ => k 0, rhoPrev := k 0, iter := 0, stopped := false }
+
 /-- `CG.forward(A, b, x, M)` for one system with `n` unknowns.  Returns the final state (its `x` is the
-returned tensor). `bnrm2 == 0` is `¬ 0 < ‖b‖`. -/
+returned tensor). `bnrm2 == 0` is `¬ 0 < ‖b‖`; in that case `b` itself is returned. -/
 def cgForward (n : Nat) (tol : α) (maxiter : Option Nat) (A : Nat → Nat → α) (b : Nat → α)
     (x0 : Option (Nat → α)) (M : Option (Nat → Nat → α)) : CGState α :=
-  let bn := norm n b
-  if Scalar.lt (k 0) bn then
-    let atol := tol * bn
-    let mi := match maxiter with | some m => m | none => n * 10
-    let x : Tab α := match x0 with | some x => tab n x | none => tab n fun _ => k 0
-    let r : Tab α := if anyNonzero n x.get then tab n (fun i => b i - matVec n A x.get i) else tab n b
-    cgLoop n A M atol mi { x := x, r := r, p := tab n fun _ => k 0, rhoPrev := k 0, iter := 0, stopped := false }
+  if Scalar.lt (k 0) (norm n b) then
+    cgLoop n A M (tol * norm n b) (cgBudget n maxiter) (cgInit n A b x0)
   else
     { x := tab n b, r := tab n b, p := tab n fun _ => k 0, rhoPrev := k 0, iter := 0, stopped := true }
 
